@@ -131,7 +131,10 @@ func genTx(t *rapid.T) []byte {
 func genSideOp(t *rapid.T) SideOp {
 	switch pick(t, "opkind", 10) {
 	case 0, 1, 2:
-		return SideOp{Kind: "final", Back: pick(t, "back", 4)}
+		// Back in -2..3: a negative value finalizes a height AHEAD of what this instance has executed
+		// (the statement quantifies over all interleavings of execute and finalize: the root must not
+		// depend on when heights were finalized, also when finality is signalled early)
+		return SideOp{Kind: "final", Back: pick(t, "back", 6) - 2}
 	case 3:
 		return SideOp{Kind: "reopen"}
 	case 4:
@@ -367,12 +370,15 @@ func (w *world4) side(in *inst, op SideOp, afterBlock int, when string) *world.V
 	}
 	switch op.Kind {
 	case "final":
-		if in.executed == 0 {
+		if in.executed == 0 && op.Back >= 0 {
 			w.labels["final-skipped-nothing-executed"] = true
 			return nil
 		}
 		h := uint64(1)
-		if uint64(op.Back) < in.executed {
+		if op.Back < 0 {
+			h = in.executed + uint64(-op.Back)
+			w.labels["final-ahead-of-execution"] = true
+		} else if uint64(op.Back) < in.executed {
 			h = in.executed - uint64(op.Back)
 		}
 		var err error
